@@ -24,7 +24,53 @@ def _base(ex):
     return ex.new_state().db
 
 
+def _python_mirror(ctx):
+    """the driver's in-memory mirror of free cores: after each procedure call of batch/driver/job.py the figure the procedure
+    reports (delta_cores_mcpu) is applied to the instance object exactly once, whatever the procedure's return code, when the
+    instance object is in the state for which the procedure moved cores; Instance.adjust_free_cores_in_memory adds exactly it."""
+    from vc import pyvc
+    from vc.pyvc import Contract, SRecord, to_z3
+
+    JOB, INST = 'batch/batch/driver/job.py', 'batch/batch/driver/instance.py'
+    ROW = pyvc.rec_type(delta_cores_mcpu='int', rc='int')
+
+    def adjust(eng, st, args, kw, node):
+        st.env['ADJ'] = st.env['ADJ'] + eng.num(args[0])
+        st.env['n_adj'] = st.env['n_adj'] + 1
+        return None
+
+    def setup(eng, st):
+        st.env['instance'] = SRecord('Instance', {'state': st.env['ISTATE'], 'name': z3.Const('iname', pyvc.U)})
+        st.env['id'] = z3.StringVal('job-id')
+        st.env['attempt_id'] = z3.StringVal('attempt')
+
+    nothing = lambda eng, st, args, kw, node: None  # noqa: E731
+    # (function, live state of the instance object, number of statements from the first `if rv[...]` on)
+    for fname, live, n in (('schedule_job', 'active', 2), ('mark_job_started', 'active', 1), ('mark_job_creating', 'pending', 1), ('unschedule_job', 'active', 1)):
+        c = Contract(
+            path=JOB, qualname=fname, label='%s[in-memory refund]' % fname, fragment=("re:^if rv\\['delta_cores_mcpu'\\]|^if rv\\['rc'\\]", n), strings=True,
+            extra_inputs={'rv': ROW, 'ISTATE': 'U'}, setup=setup,
+            calls={'instance.adjust_free_cores_in_memory': adjust, 'log.info': nothing},
+            ghost_init={'ADJ': '0', 'n_adj': '0'},
+            ensures=[('the-reported-delta-is-applied-once-whatever-the-return-code', "ADJ == (rv.delta_cores_mcpu if ISTATE == '%s' else 0) and n_adj <= 1" % live)],
+            raises={}, canaries=[('never-adjusted', 'n_adj == 0')],
+        )
+        eng = pyvc.Engine(ctx, c)
+        eng.run()
+    # the adjust method itself
+    def setup2(eng, st):
+        pass
+
+    c = Contract(
+        path=INST, qualname='Instance.adjust_free_cores_in_memory', types={'delta_mcpu': 'int'}, self_fields={'_free_cores_mcpu': 'int', 'inst_coll': 'U'},
+        calls={'self.inst_coll.adjust_for_remove_instance': nothing, 'self.inst_coll.adjust_for_add_instance': nothing},
+        ensures=[('adds-exactly-the-delta', 'self._free_cores_mcpu == old(self._free_cores_mcpu) + delta_mcpu')], raises={}, canaries=[('unchanged', 'self._free_cores_mcpu == old(self._free_cores_mcpu)')],
+    )
+    pyvc.Engine(ctx, c).run()
+
+
 def build(ctx):
+    _python_mirror(ctx)
     ex = sqlvc.Exec(inline_after=False)
     PENDING, ACTIVE, INACTIVE = intern('pending'), intern('active'), intern('inactive')
     X = z3.Int('X_instance')
@@ -74,6 +120,8 @@ def build(ctx):
             st1 = ins1.get([X], 'state')
             for case, code in (('active', ACTIVE), ('pending', PENDING)):
                 ctx.add(core.valid('%s/path%d/delta-free-cores-matches-live-attempts/instance-%s' % (name, pi, case), hyps + [ins1.has([X]), z3.Not(st1.n), st1.v == code], d_free == cores.v * d_live, trace=' > '.join(s.trace[-10:])))
+            # an inactive instance reports all cores free: no event may move its free-core figure
+            ctx.add(core.valid('%s/path%d/free-cores-of-an-inactive-instance-do-not-move' % (name, pi), hyps + [ins1.has([X]), z3.Not(st1.n), st1.v == INACTIVE], d_free == 0, trace=' > '.join(s.trace[-10:])))
             ctx.add(core.valid('%s/path%d/attempts-invariant-reason-implies-end-preserved' % (name, pi), hyps + [z3.Not(v[[k for k in v if k.endswith('new_reason')][0]].n)] if any(k.endswith('new_reason') for k in v) else hyps, z3.Implies(z3.And(att1.has(K), z3.Not(att1.get(K, 'reason').n)), z3.Not(att1.get(K, 'end_time').n))))
             # frame: free-core rows of other instances and the existence of rows are untouched
             ctx.add(core.valid('%s/path%d/frame-other-instances' % (name, pi), hyps + [X != inst.v], z3.And(d_free == 0, free1.has([X]) == free0.has([X]))))
